@@ -4,7 +4,7 @@ import z3
 
 from pyvc import trace as T
 from pyvc.ops import FALSE, TRUE
-from pyvc.values import ObjRec, SElem, SEnum, SNone, SObj, SOpt, SStr, fresh_int
+from pyvc.values import SList, ObjRec, SElem, SEnum, SNone, SObj, SOpt, SStr, fresh_int
 from pyvc.verify import Obl
 
 from . import tprops as P
@@ -877,7 +877,22 @@ def _cs_silent_drop(ctx):
     running = T.loaded_info(I, stage)["status"].t == status(I, "RUNNING")
     child_due = ctx.ev("exists(execution.stages, lambda s: s.parent_stage_id == stage.id and len(s.requisite_stage_ref_ids) == 0 "
                        "and not s.status.is_complete)", {"stage": stage, "execution": I.getattr(stage, "execution")})
-    return [("mark-only-needs-an-unfinished-initial-child", z3.Implies(z3.And(running, is_complete(I, det[-1])), child_due))]
+    goals = [("mark-only-needs-an-unfinished-initial-child", z3.Implies(z3.And(running, is_complete(I, det[-1])), child_due))]
+    # ... and when determine_status says RUNNING only because the stage's own work is over (every task and before-child ended
+    # in a continuable status) while its after-stages have not been started yet, the handler is the one that has to start
+    # them: swallowing the message there leaves nobody to complete the stage
+    env = {"stage": stage, "execution": I.getattr(stage, "execution"), "CONT": ctx.names.get("CONT")}
+    cont = "(S.SUCCEEDED, S.FAILED_CONTINUE, S.SKIPPED)"
+    before = "(s.parent_stage_id == stage.id and s.synthetic_stage_owner == Owner.STAGE_BEFORE)"
+    first_after = "(s.parent_stage_id == stage.id and s.synthetic_stage_owner == Owner.STAGE_AFTER and len(s.requisite_stage_ref_ids) == 0)"
+    core_done = ctx.ev(f"(exists(stage.tasks, lambda t: True) or exists(execution.stages, lambda s: {before})) "
+                       f"and forall(stage.tasks, lambda t: t.status in {cont}) "
+                       f"and forall(execution.stages, lambda s: implies({before}, s.status in {cont}))", env)
+    after_waiting = ctx.ev(f"exists(execution.stages, lambda s: {first_after}) "
+                           f"and forall(execution.stages, lambda s: implies({first_after}, s.status == S.NOT_STARTED))", env)
+    goals.append(("mark-only-never-when-the-after-stages-are-this-handlers-to-start",
+                  z3.Implies(z3.And(running, det[-1] == status(I, "RUNNING")), z3.Not(z3.And(core_done, after_waiting)))))
+    return goals
 
 
 def _cs_events(ctx):
@@ -1131,6 +1146,46 @@ def _ss_claim_loser(ctx):
     return goals
 
 
+def _ss_choice_siblings(ctx):
+    """C11 (the others end canceled): the winner of a deferred choice hands every other NOT_STARTED stage of its group to
+    CancelStage, and it looks for them in the FULL stage list of the workflow (repository.retrieve) -- the execution that
+    comes with a stage loaded by retrieve_stage holds only the stage, its upstream stages and its synthetic children, never
+    its siblings."""
+    I = ctx.I
+    stage = loaded_stage(ctx)
+    goals = []
+    if stage is None:
+        return goals
+    msg = ctx.extra["message"]
+    fes = [e for e in ctx.st.effects if e.kind == "foreach" and any(b.kind == "queue_push" and b.data["cls"] == "CancelStage" for b, _ in T.flat([e]))]
+    for n, e in enumerate(fes):
+        lid = e.data["lid"]
+        owners = [rec for rec in I.st.objs.values() if rec.cls == "Workflow" or (rec.ci is not None and rec.ci.name == "Workflow")
+                  if isinstance(rec.fields.get("stages"), SList) and rec.fields["stages"].lid == lid]
+        full = any((rec.meta.get("loaded") or {}).get("how") == "retrieve" for rec in owners)
+        goals.append((f"cancel-loop{n}.over-the-full-workflow", z3.BoolVal(full)))
+        if not full:
+            continue
+        g = e.data["g"]
+        ids = I._elem_array(lid, "id", z3.IntSort())
+        sel = SElem(lid, (g,))
+        sibling = ctx.ev("s.id != stage.id and s.deferred_choice_group == stage.deferred_choice_group and s.status == S.NOT_STARTED", {"s": sel, "stage": stage})
+        goals.append((f"cancel-loop{n}.every-unstarted-sibling-of-the-group", z3.Implies(z3.And(g >= 0, g < e.data["hi"], sibling), e.data["cond"])))
+        goals.append((f"cancel-loop{n}.covers-the-whole-list", e.data["hi"] == I.ops.base_len(lid, ())))
+        for b, bg in T.flat([e]):
+            if b.kind == "queue_push" and b.data["cls"] == "CancelStage":
+                goals.append((f"cancel-loop{n}.addresses-the-sibling", z3.Implies(bg, I.getattr(b.data["msg"], "stage_id").t == z3.Select(ids, g))))
+    # a winner with a group always runs the loop (after its claim committed)
+    claimed = [t for t in _ss_claim_txns(ctx) if t.committed]
+    if claimed and not fes:
+        grp = I.getattr(stage, "deferred_choice_group")
+        planned = any(e.kind == "plan" for e in ctx.st.effects)
+        if planned:
+            none_to_cancel = [e for e in ctx.st.effects if e.kind == "load" and e.data["kind"] == "execution" and e.data["how"] == "retrieve"]
+            goals.append(("winner-looks-for-its-siblings", z3.Implies(I.ops.truthy(grp), z3.BoolVal(bool(none_to_cancel)))))
+    return goals
+
+
 def _ss_guard(ctx):
     """C02/C10: a StartStage for a stage that is neither NOT_STARTED nor a zombie does nothing at all."""
     I = ctx.I
@@ -1216,6 +1271,7 @@ def start_stage():
         Obl("C02/once-per-iteration/StartStage", _ss_claim_first, when="any"),
         Obl("C11/claim-in-claim-txn", _ss_claims, when="any"),
         Obl("C11/claim-loser", _ss_claim_loser, when="any"),
+        Obl("C11/choice-siblings", _ss_choice_siblings, when="any"),
         Obl("C02/guard/StartStage", _ss_guard, when="any"),
         Obl("C10/absorb/StartStage", _ss_guard, when="any"),
         Obl("C01/T1/StartStage", P.t1_processed_with_effects(_ss_t1_exempt), when="any"),
@@ -2158,6 +2214,12 @@ def _recover_task_level(ctx, planned=False):
                         ex_first = z3.Exists([kq], z3.And(kq >= 0, kq < n_t, I._select(tid_arr, (sgi, kq)) == tid.t, I._select(tst_arr, (sgi, kq)) == status(I, want),
                                                           z3.ForAll([jq], z3.Implies(z3.And(jq >= 0, jq < kq), I._select(tst_arr, (sgi, jq)) != status(I, want)))))
                         goals.append(("push.StartTask.is-the-first-not-started-task", z3.Implies(g, z3.Or(ex_first, *firsts))))
+                if b.data["cls"] == "StartTask" and child is not None and sframe:
+                    # tasks of a stage run one after the other: the sweep starts a task only when no task of the stage is RUNNING
+                    # (a RUNNING task -- with or without a queued message -- is still to finish first)
+                    sel0 = SElem(stages.lid, (sframe[0][3],))
+                    goals.append(("push.StartTask.no-task-of-the-stage-is-running",
+                                  z3.Implies(g, z3.Not(ctx.ev("exists(s.tasks, lambda t: t.status == S.RUNNING)", {"s": sel0})))))
                 if planned and b.data["cls"] == "StartTask" and child is not None and sframe:
                     # C01 (same upstream data as an uninterrupted run): the first task may be started directly only in a stage
                     # that has been planned -- planning is what merges the ancestors' outputs into the stage context.  The one
